@@ -201,7 +201,13 @@ def r2_project_grid(ctx):
         okg = None
         if len(grids) == 1:
             g = grids[0]
-            okg = True if Q.arg(ctx, g, "region") == reg and Q.arg(ctx, g, "spacing") == spc else (False if Q.arg(ctx, g, "region") is None or Q.arg(ctx, g, "spacing") is None else None)
+            def given(nm):
+                v = Q.arg(ctx, g, nm)
+                # a keyword that was popped from **kwargs before cannot come back through the **kwargs spread: not written out = not passed
+                if v == "unknown" and nm in pops and not any(k == nm for k, _v in g[3]):
+                    return None
+                return v
+            okg = True if given("region") == reg and given("spacing") == spc else (False if given("region") is None or given("spacing") is None else None)
         ctx.check("R2", "%s|grid-with-region-and-spacing|%s" % (PG, tag), okg, "the interpolator grids with the chosen region and spacing", bad="region/spacing are not passed to grid()", fn=PG)
         v = p.value
         okh = None
